@@ -178,6 +178,7 @@ func genTblAct(rng *rand.Rand, mode int, rootUnset bool) tblAct {
 // TestTblGen: seeded histories; mode rib (register/unregister/cleanup) or fib (direct FIB operations),
 // alternating FIB implementation and m in 1..6.
 func TestTblGen(t *testing.T) {
+	defer watchDriver("TestTblGen")()
 	w := newTrace("tbl_gen.ndjson")
 	defer w.Close()
 	n, ln := envInt("VERIF_N", 300), envInt("VERIF_LEN", 30)
@@ -201,6 +202,7 @@ func TestTblGen(t *testing.T) {
 // TestTblSched: TLC-generated histories ($VERIF_SCHED/*.ndjson) / stored segment ($VERIF_REPLAY),
 // each applied to both FIB implementations.
 func TestTblSched(t *testing.T) {
+	defer watchDriver("TestTblSched")()
 	var files []string
 	if r := os.Getenv("VERIF_REPLAY"); r != "" {
 		files = []string{r}
